@@ -195,6 +195,7 @@ def check(run):
     run.samples = [{"family": fams[0]["family"], "P": fams[0]["abs"]["P"]}, {"family": "fk-graph", "vals": graphs[len(graphs) // 2]["abs"]["P"]["vals"]}]
     loadfam.replay_load(run, graphs + fams, "Trace_Fk", "Trace_Fk.cfg", build_features=("json", "quote"),
                         variant="json-quote", key_of=_key, trace_env={"ORACLE": oracle})
+    loadfam.replay_suppressed(run, graphs + fams, "Trace_Fk", "Trace_Fk.cfg", _key, trace_env={"ORACLE": oracle})
     quick = run.tier == "quick"
     import os
     run.notes["l2_render_events"] = run_l2(run, graphs + fams, os.path.join(run.workdir, "load", "trace.ndjson"),
